@@ -1,24 +1,201 @@
-"""C20 facts: the nesting limit of JsonDecode (lib/base/json.cpp): the constant and that both JsonSax::start_object and
-JsonSax::start_array test `m_CurrentSubtree.size() >= <constant>` before anything else and throw.  If the guard is not
-recognised (e.g. the fix is reverted) the fact is None: the model then has no limit and the correspondence run decides."""
+"""C20 facts, re-extracted from the source on every run (coq/Facts/Facts_c20.v).
+
+JSON nesting (lib/base/json.cpp):
+  * f_js_max_depth            the nesting limit of JsonDecode: the constant, and that both JsonSax::start_object and
+                              JsonSax::start_array test `m_CurrentSubtree.size() >= <constant>` before anything else and throw
+                              (None = guard not recognised: no limit in the model, the correspondence run decides)
+  * f_js_trusted_max_depth    the nesting limit of JsonDecodeTrusted: Some None = it parses with JsonSaxTrusted whose
+                              start_object/start_array have no guard at all; Some (Some n) = same guard shape with constant n;
+                              None = the function / the class is not recognised (e.g. the tree predates fix 9f18442)
+  * f_js_restore_trusted      Some true = ConfigObject::RestoreObject decodes with JsonDecodeTrusted(message), Some false = with
+                              JsonDecode(message)
+  * f_js_encode_unlimited     Some true = nothing in JsonEncoder / Encode*() counts or tests a nesting depth
+netstring (lib/base/netstring.cpp, netstring.hpp) and its callers:
+  * f_ns_buf_digits / f_ns_sync_digits / f_ns_co_digits
+                              a length prefix with more digits than this is rejected by the buffered / the synchronous TLS /
+                              the coroutine TLS reader
+  * f_ns_buf_limit_plus_one   the buffered reader compares `len + 1 > maxMessageLength` (only when maxMessageLength >= 0)
+  * f_ns_stream_limit_gt      both TLS readers compare `len > maxMessageLength` (only when maxMessageLength >= 0), before the
+                              payload buffer is allocated
+  * f_ns_writer_plain         WriteStringToStream(std::ostream&, str) is `stream << str.GetLength() << ":" << str << ","` and the
+                              other overloads go through it: the writer has no limit of its own
+  * f_ns_default_max          the default maxMessageLength of the readers in netstring.hpp (the same for all three)
+  * f_ns_file_callers_default Some true = every caller of the buffered reader (RestoreObjects, ReplayLog, the CLI list readers)
+                              passes exactly (stream, &message, context), i.e. the default limit
+  * f_rpc_anon_max / f_rpc_endpoint_max
+                              what JsonRpcConnection::HandleIncomingMessages passes to JsonRpc::ReadMessage for a connection
+                              without / with an endpoint
+A fact that is no longer recognised is emitted as None: the theorems over it degrade to `True` (compared only)."""
 import re
+
 
 def _strip(s):
     return re.sub(r'/\*.*?\*/|//[^\n]*', '', s, flags=re.S)
 
+
+def _fn_body(src, sig_re):
+    m = re.search(sig_re + r'[^{;]*\{', src)
+    if not m:
+        return None
+    i = m.end()
+    depth = 1
+    j = i
+    while j < len(src) and depth:
+        if src[j] == '{': depth += 1
+        elif src[j] == '}': depth -= 1
+        j += 1
+    return src[i:j - 1]
+
+
+def _oz(v):
+    return 'None' if v is None else 'Some (%d)' % v
+
+
+def _ob(v):
+    return 'None' if v is None else ('Some true' if v else 'Some false')
+
+
+def _const(expr):
+    expr = expr.strip()
+    if re.fullmatch(r'-\s*\d+', expr):
+        return -int(expr.replace('-', '').strip())
+    if re.fullmatch(r'[\d\s*()UuLl]+', expr):
+        try:
+            return int(eval(re.sub(r'[UuLl]', '', expr), {'__builtins__': {}}))
+        except Exception:
+            return None
+    return None
+
+
 def run(rd, emit, log, enum_values, ti_default):
     src = _strip(rd('lib/base/json.cpp'))
+    out = ''
+    # ------------------------------------------------------------------ JSON nesting
     val = None
+    name = None
     m = re.search(r'static\s+const\s+std::size_t\s+(\w+)\s*=\s*(\d+)\s*;', src)
+    guard = r'bool\s+%s::%s\s*\(\s*std::size_t\s*\)\s*\{\s*if\s*\(\s*m_CurrentSubtree\.size\(\)\s*>=\s*%s\s*\)\s*\{?\s*(?:BOOST_THROW_EXCEPTION\s*\(|throw\s)'
     if m:
         name, n = m.group(1), int(m.group(2))
-        ok = True
-        for fn in ('start_object', 'start_array'):
-            g = re.search(r'bool\s+JsonSax::%s\s*\(\s*std::size_t\s*\)\s*\{\s*if\s*\(\s*m_CurrentSubtree\.size\(\)\s*>=\s*%s\s*\)\s*\{?\s*(?:BOOST_THROW_EXCEPTION\s*\(|throw\s)' % (fn, name), src)
-            if not g:
-                ok = False
-        if ok:
+        if all(re.search(guard % ('JsonSax', fn, name), src) for fn in ('start_object', 'start_array')):
             val = n
     if val is None:
         log.append('C20: nesting limit of JsonSax::start_object/start_array not recognised (no limit in the model; compared only)')
-    emit('Facts_c20.v', 'Definition f_js_max_depth : option Z := %s.\n' % ('Some (%d)' % val if val is not None else 'None'))
+    out += 'Definition f_js_max_depth : option Z := %s.\n' % _oz(val)
+
+    trusted = 'None'
+    jb = _fn_body(src, r'Value\s+icinga::JsonDecodeTrusted\s*\(\s*const\s+String&\s*\w+\s*\)')
+    if jb is not None and re.search(r'\bJsonSaxTrusted\s+\w+\s*;', jb) and re.search(r'sax_parse\s*\(', jb) \
+            and re.search(r'class\s+JsonSaxTrusted\s+(?:final\s*)?:\s*public\s+JsonSax\b', src):
+        bodies = [_fn_body(src, r'bool\s+JsonSaxTrusted::%s\s*\(\s*std::size_t\s*\)' % fn) for fn in ('start_object', 'start_array')]
+        if all(b is not None for b in bodies):
+            if all(not re.search(r'\bif\b|\bthrow\b|BOOST_THROW_EXCEPTION|size\s*\(', b) for b in bodies):
+                trusted = 'Some None'
+            elif name and all(re.search(guard % ('JsonSaxTrusted', fn, r'(\w+)'), src) for fn in ('start_object', 'start_array')):
+                g = re.search(guard % ('JsonSaxTrusted', 'start_object', r'(\w+)'), src).group(1)
+                mm = re.search(r'static\s+const\s+std::size_t\s+%s\s*=\s*(\d+)\s*;' % re.escape(g), src)
+                if mm:
+                    trusted = 'Some (Some (%d))' % int(mm.group(1))
+    if trusted == 'None':
+        log.append('C20: JsonDecodeTrusted / JsonSaxTrusted not recognised (second decoder compared only)')
+    out += 'Definition f_js_trusted_max_depth : option (option Z) := %s.\n' % trusted
+
+    co = _strip(rd('lib/base/configobject.cpp'))
+    rb = _fn_body(co, r'void\s+ConfigObject::RestoreObject\s*\(')
+    rt = None
+    if rb is not None:
+        if re.search(r'=\s*JsonDecodeTrusted\s*\(\s*message\s*\)\s*;', rb) and not re.search(r'\bJsonDecode\s*\(', rb): rt = True
+        elif re.search(r'=\s*JsonDecode\s*\(\s*message\s*\)\s*;', rb) and not re.search(r'\bJsonDecodeTrusted\s*\(', rb): rt = False
+    if rt is None: log.append('C20: decoder of ConfigObject::RestoreObject not recognised')
+    out += 'Definition f_js_restore_trusted : option bool := %s.\n' % _ob(rt)
+
+    enc = None
+    eb = re.search(r'class\s+JsonEncoder\b.*?Value\s+icinga::JsonDecode\b', src, re.S)
+    if eb and not re.search(r'[Dd]epth|[Nn]esting|[Ll]evel', eb.group(0).replace(name or '\0', '')):
+        enc = True
+    if enc is None: log.append('C20: JsonEncode nesting behaviour not recognised')
+    out += 'Definition f_js_encode_unlimited : option bool := %s.\n' % _ob(enc)
+
+    # ------------------------------------------------------------------ netstring
+    ns = _strip(rd('lib/base/netstring.cpp'))
+    nsh = _strip(rd('lib/base/netstring.hpp'))
+    bufb = _fn_body(ns, r'StreamReadStatus\s+NetString::ReadStringFromStream\s*\(\s*const\s+Stream::Ptr')
+    bd = None
+    plus1 = None
+    if bufb:
+        m = re.search(r'if\s*\(\s*i\s*>=\s*(\d+)\s*\)\s*BOOST_THROW_EXCEPTION', bufb)
+        if m and re.search(r'for\s*\(\s*i\s*=\s*0\s*;\s*i\s*<\s*header_length\s*&&\s*isdigit\(context\.Buffer\[i\]\)\s*;\s*i\+\+\s*\)', bufb):
+            bd = int(m.group(1))
+        if re.search(r'size_t\s+data_length\s*=\s*len\s*\+\s*1\s*;', bufb) and \
+           re.search(r'if\s*\(\s*maxMessageLength\s*>=\s*0\s*&&\s*data_length\s*>\s*\(size_t\)\s*maxMessageLength\s*\)', bufb):
+            plus1 = True
+    sync = _fn_body(ns, r'String\s+NetString::ReadStringFromStream\s*\(\s*const\s+Shared<AsioTlsStream>::Ptr&\s*\w+\s*,\s*ssize_t\s+\w+\s*\)')
+    cor = _fn_body(ns, r'String\s+NetString::ReadStringFromStream\s*\(\s*const\s+Shared<AsioTlsStream>::Ptr&\s*\w+\s*,\s*boost::asio::yield_context\s+\w+\s*,\s*ssize_t\s+\w+\s*\)')
+    sd = []
+    gt = True
+    for b in (sync, cor):
+        d = None
+        if b:
+            m = re.search(r'if\s*\(\s*isdigit\s*\(\s*byte\s*\)\s*\)\s*\{\s*if\s*\(\s*readBytes\s*==\s*(\d+)\s*\)\s*\{?\s*BOOST_THROW_EXCEPTION', b)
+            if m and re.search(r'for\s*\(\s*uint_fast8_t\s+readBytes\s*=\s*0\s*;\s*;\s*\+\+readBytes\s*\)', b):
+                d = int(m.group(1))
+            g = re.search(r'if\s*\(\s*maxMessageLength\s*>=\s*0\s*&&\s*len\s*>\s*maxMessageLength\s*\)', b)
+            a = re.search(r'payload\.Append\s*\(\s*len\s*,', b)
+            if not (g and a and g.start() < a.start()):
+                gt = False
+        else:
+            gt = False
+        sd.append(d)
+    if bd is None or None in sd: log.append('C20: netstring length-digit limits not (all) recognised')
+    if not plus1 or not gt: log.append('C20: netstring maxMessageLength tests not (all) recognised')
+    out += 'Definition f_ns_buf_digits : option Z := %s.\n' % _oz(bd)
+    out += 'Definition f_ns_sync_digits : option Z := %s.\n' % _oz(sd[0])
+    out += 'Definition f_ns_co_digits : option Z := %s.\n' % _oz(sd[1])
+    out += 'Definition f_ns_buf_limit_plus_one : option bool := %s.\n' % ('Some true' if plus1 else 'None')
+    out += 'Definition f_ns_stream_limit_gt : option bool := %s.\n' % ('Some true' if gt else 'None')
+
+    wp = None
+    wb = _fn_body(ns, r'void\s+NetString::WriteStringToStream\s*\(\s*std::ostream&\s*\w+\s*,\s*const\s+String&\s*\w+\s*\)')
+    if wb is not None and re.fullmatch(r'\s*stream\s*<<\s*str\.GetLength\(\)\s*<<\s*":"\s*<<\s*str\s*<<\s*","\s*;\s*', wb):
+        others = re.findall(r'size_t\s+NetString::WriteStringToStream\s*\([^)]*\)\s*\{', ns)
+        bodies = [_fn_body(ns[m.start():], r'size_t\s+NetString::WriteStringToStream\s*\(') for m in re.finditer(r'size_t\s+NetString::WriteStringToStream\s*\(', ns)]
+        if len(others) == len(bodies) and bodies and all(b and re.search(r'WriteStringToStream\s*\(\s*msgbuf\s*,\s*str\s*\)\s*;', b)
+                                                          and not re.search(r'\bif\b|\bthrow\b|BOOST_THROW', b) for b in bodies):
+            wp = True
+    if wp is None: log.append('C20: NetString::WriteStringToStream not recognised')
+    out += 'Definition f_ns_writer_plain : option bool := %s.\n' % _ob(wp)
+
+    defaults = re.findall(r'ReadStringFromStream\s*\([^;]*?ssize_t\s+\w+\s*=\s*(-?\s*\d+)\s*\)\s*;', nsh)
+    dm = None
+    if len(defaults) == 3 and len(set(d.replace(' ', '') for d in defaults)) == 1:
+        dm = int(defaults[0].replace(' ', ''))
+    if dm is None: log.append('C20: default maxMessageLength not recognised')
+    out += 'Definition f_ns_default_max : option Z := %s.\n' % _oz(dm)
+
+    callers_ok = True
+    ncalls = 0
+    for f in ('lib/base/configobject.cpp', 'lib/remote/apilistener.cpp', 'lib/cli/objectlistcommand.cpp', 'lib/cli/variableutility.cpp'):
+        try:
+            t = _strip(rd(f))
+        except Exception:
+            callers_ok = False
+            continue
+        for call in re.findall(r'NetString::ReadStringFromStream\s*\(([^;]*)\)\s*;', t):
+            ncalls += 1
+            if not re.fullmatch(r'\s*\w+\s*,\s*&\w+\s*,\s*\w+\s*', call):
+                callers_ok = False
+    if ncalls < 4: callers_ok = False
+    if not callers_ok: log.append('C20: callers of the buffered netstring reader not recognised')
+    out += 'Definition f_ns_file_callers_default : option bool := %s.\n' % ('Some true' if callers_ok else 'None')
+
+    jc = _strip(rd('lib/remote/jsonrpcconnection.cpp'))
+    hb = _fn_body(jc, r'void\s+JsonRpcConnection::HandleIncomingMessages\s*\(')
+    anon = ep = None
+    if hb:
+        m = re.search(r'JsonRpc::ReadMessage\s*\(\s*m_Stream\s*,\s*yc\s*,\s*m_Endpoint\s*\?\s*([^:;]+?)\s*:\s*([^;]+?)\s*\)\s*;', hb)
+        if m:
+            ep, anon = _const(m.group(1)), _const(m.group(2))
+    if anon is None or ep is None: log.append('C20: message length limits of JsonRpcConnection::HandleIncomingMessages not recognised')
+    out += 'Definition f_rpc_anon_max : option Z := %s.\n' % _oz(anon)
+    out += 'Definition f_rpc_endpoint_max : option Z := %s.\n' % _oz(ep)
+    emit('Facts_c20.v', out)
